@@ -1,7 +1,8 @@
 """Logger routing (spec/Route.tla): TLC checks that every failed delivery is reported to the destinations and never to a
 MemoryLogger, and that positions stay unique across loggers (the sibling whose reports follow the current action's logger must be
 rejected); then every behaviour TLC emits is replayed on the real library (route_exec.py) and the contents of the three sinks are
-compared up to a renaming of task uuids.  Part of C08: a deviation in what the healthy DESTINATION receives, or in where a failure
+compared up to a renaming of task uuids.  Also run by C04, which owns only the clause message_position (a message logged inside an
+action's block is its child whatever logger it goes to).  Part of C08: a deviation in what the healthy DESTINATION receives, or in where a failure
 report goes, contradicts C08; deviations that only concern what a MemoryLogger holds are information."""
 import json, os
 from common import *
@@ -59,6 +60,11 @@ def _diff(b, g):
     want, got = canon(b["sinks"]), canon({s: g[s] for s in ("D", "M1", "M2")})
     if want == got:
         return None
+    kinds = lambda x: {s: [m[0] for m in x[s]] for s in x}
+    if kinds(want) == kinds(got):
+        # every sink got the right kinds of messages in the right order, but not at the specified positions: a message logged inside
+        # an action is not its child (or a child of the wrong action)
+        return "message_position", "positions (task, task_level) of the messages: specification %s, implementation %s" % (json.dumps(want), json.dumps(got))
     reps = lambda x: {s: sum(1 for m in x[s] if m[0] == "rep") for s in x}
     if reps(want) != reps(got):
         return "report_routing", "failure reports per sink: specification %s, implementation %s" % (reps(want), reps(got))
@@ -103,6 +109,8 @@ def run_route(rep, tier):
             if d[0] == "memory_logger_only":
                 print("NOTE %s: (information) %s" % (prop, msg[:400]))
                 rep.cov.setdefault("information", []).append(msg[:300])
+            elif prop != "C08" and d[0] != "message_position":
+                print("NOTE %s: deviation owned by C08: %s" % (prop, msg[:300]))
             else:
                 rep.violation(msg, {"engine": "route", "module": "checks_route", "beh": b, "key": d[0]})
     rep.cov["route_behaviours"] = {"exhaustive_calls<=%d" % (3 if quick else 4): len(behs), "simulated_8_calls": len(sims), "with_a_failure_report": nrep}
